@@ -29,6 +29,13 @@ def load_frozen():
 
 
 class _Canon(ast.NodeTransformer):
+    def visit_Compare(self, node):
+        self.generic_visit(node)
+        # None is x  ->  x is None ;  0 == x  ->  x == 0      (identity / equality tests are symmetric)
+        if len(node.ops) == 1 and isinstance(node.ops[0], (ast.Is, ast.IsNot, ast.Eq, ast.NotEq)) and isinstance(node.left, ast.Constant) and not isinstance(node.comparators[0], ast.Constant):
+            node.left, node.comparators = node.comparators[0], [node.left]
+        return node
+
     def visit_Call(self, node):
         self.generic_visit(node)
         # f(a, **{"k": v})  ->  f(a, k=v)      (literal string keys that are identifiers)
@@ -131,8 +138,12 @@ class _DictUpdate(ast.NodeTransformer):
         for n in ast.walk(node):
             if isinstance(n, ast.Assign) and len(n.targets) == 1 and isinstance(n.targets[0], ast.Name):
                 v = n.value
-                if isinstance(v, (ast.Dict, ast.DictComp)) or (isinstance(v, ast.Call) and isinstance(v.func, ast.Name) and v.func.id == "dict"):
+                def is_dict(x):
+                    return isinstance(x, (ast.Dict, ast.DictComp)) or (isinstance(x, ast.Call) and isinstance(x.func, ast.Name) and x.func.id == "dict")
+
+                if is_dict(v) or (isinstance(v, ast.IfExp) and (is_dict(v.body) or is_dict(v.orelse))) or (isinstance(v, ast.BoolOp) and isinstance(v.op, ast.Or) and is_dict(v.values[-1])):
                     d.add(n.targets[0].id)
+            # `x = {} if x is None else x` arrives here in the self-default form `if x is None: x = {}` (same fact)
         self.dicts = saved | d
         self.generic_visit(node)
         self.dicts = saved
@@ -349,9 +360,18 @@ def pure_method_names(trees):
     return set(defs) - impure
 
 
+MODULE_ALIASES = {"np", "sps", "spl", "spo", "math", "scipy", "numpy", "itertools", "functools", "warnings", "copy"}
+
+
 def _reads(e):
     names = {n.id for n in ast.walk(e) if isinstance(n, ast.Name) and isinstance(n.ctx, ast.Load)}
     attrs = {ast.unparse(n) for n in ast.walk(e) if isinstance(n, ast.Attribute)}
+    # np.sign, sps.gamma, ... are functions of imported modules, not state
+    attrs = {a for a in attrs if a.split(".")[0] not in MODULE_ALIASES}
+    # getattr(obj, name) / hasattr(obj, name) read an attribute of obj that is not known statically
+    for n in ast.walk(e):
+        if isinstance(n, ast.Call) and isinstance(n.func, ast.Name) and n.func.id in ("getattr", "hasattr") and n.args:
+            attrs.add(ast.unparse(n.args[0]) + ".<dynamic>")
     return names, attrs
 
 
@@ -383,13 +403,43 @@ def _invalidates(node, rn, ra, pure):
                     return True
             if isinstance(fn, ast.Attribute) and ra:
                 recv = ast.unparse(fn.value)
-                if fn.attr not in pure and any(a.startswith(recv + ".") for a in ra):
+                if recv == "super()":
+                    recv = "self"  # a method of the base class run on this object
+                if (fn.attr not in pure or fn.attr in ("__setattr__", "__delattr__", "__setitem__", "__init__")) and any(a.startswith(recv + ".") for a in ra):
                     return True
             # in-place numpy mutation of a name the value reads (x.sort(), np.fill_diagonal(x, ..) ...) is not modelled: the
             # value expressions we inline are re-evaluated, which is only different when an input was mutated in between
             if isinstance(fn, ast.Attribute) and isinstance(fn.value, ast.Name) and fn.value.id in rn and fn.attr in ("sort", "fill", "append", "extend", "pop", "remove", "insert", "update", "clear", "resize", "itemset", "put", "setdefault", "reverse"):
                 return True
     return False
+
+
+def split_new_tuple_assigns(fn, known):
+    """`a, b = (e1, e2)` where a and b are NEW locals (not in the reference) and no e_i reads a or b becomes `a = e1; b = e2`, so that the
+    single-name machinery (inlining, sinking, renaming) applies to each.  Returns True when something was split."""
+    params = {a.arg for a in fn.args.posonlyargs + fn.args.args + fn.args.kwonlyargs}
+    changed = False
+    for node in ast.walk(fn):
+        for field in ("body", "orelse", "finalbody"):
+            b = getattr(node, field, None)
+            if not isinstance(b, list):
+                continue
+            i = 0
+            while i < len(b):
+                st = b[i]
+                if (isinstance(st, ast.Assign) and len(st.targets) == 1 and isinstance(st.targets[0], ast.Tuple) and isinstance(st.value, ast.Tuple)
+                        and len(st.targets[0].elts) == len(st.value.elts) and all(isinstance(t, ast.Name) for t in st.targets[0].elts)):
+                    names = [t.id for t in st.targets[0].elts]
+                    if all(n_ not in known and n_ not in params for n_ in names) and len(set(names)) == len(names) \
+                            and not any(isinstance(x, ast.Name) and x.id in names for e in st.value.elts for x in ast.walk(e)):
+                        b[i:i + 1] = [ast.copy_location(ast.Assign([ast.Name(n_, ast.Store())], e), st) for n_, e in zip(names, st.value.elts)]
+                        changed = True
+                        i += len(names)
+                        continue
+                i += 1
+    if changed:
+        ast.fix_missing_locations(fn)
+    return changed
 
 
 def inline_new_locals(fn, known, pure=frozenset()):
@@ -551,7 +601,9 @@ def drop_dead_new_locals(fn, known):
 PURE_CALLS = {"min", "max", "abs", "slice", "np.cos", "np.sin", "np.sqrt", "np.abs", "np.asarray", "np.array", "np.atleast_1d", "np.atleast_2d", "len", "int", "float", "bool", "np.size",
               "np.shape", "np.ndim", "np.exp", "np.log", "np.prod", "np.sum", "np.max", "np.min", "np.any", "np.all", "np.isclose", "np.arange", "np.ones",
               "np.zeros", "np.empty", "np.logical_or", "np.logical_and", "np.logical_not", "np.isnan", "isinstance", "tuple", "list", "range", "np.power",
-              "np.linalg.norm", "np.squeeze", "np.reshape", "np.where", "np.arccos", "np.arcsin", "np.tan", "np.arctan2", "sps.gamma", "sps.loggamma"}
+              "np.linalg.norm", "np.squeeze", "np.reshape", "np.where", "np.arccos", "np.arcsin", "np.tan", "np.arctan2", "sps.gamma", "sps.loggamma",
+              "np.sign", "np.absolute", "np.arctan", "np.log1p", "np.expm1", "np.invert", "np.ceil", "np.floor", "np.deg2rad", "np.rad2deg", "np.minimum", "np.maximum", "np.isfinite",
+              "np.dot", "np.cumsum", "np.mean", "np.var", "np.ones_like", "np.zeros_like", "np.empty_like", "np.full_like", "np.full", "np.linspace", "np.concatenate", "np.insert", "np.tile"}
 
 
 def _pure_value(e, pure):
@@ -571,6 +623,8 @@ def _pure_value(e, pure):
 # ------------------------------------------------------------------------------------------------ (d) new helpers
 def _simple_helper(h):
     """Helper bodies we inline: no nested defs, no yield, no global; returns only at the end of branches."""
+    if h.args.vararg is not None or h.args.kwarg is not None:
+        return False  # *args / **kwargs parameters are not bound by the substitution
     for n in ast.walk(h):
         if isinstance(n, (ast.Yield, ast.YieldFrom, ast.Global, ast.Nonlocal, ast.Lambda)) or (isinstance(n, ast.FunctionDef) and n is not h):
             return False
@@ -1015,6 +1069,7 @@ def normalise(rel, tree, frozen, pure=frozenset(), sigs=None, multi=frozenset())
         k = set(known.get(q, [])) if q in known else None
         if k is None:
             continue
+        split_new_tuple_assigns(fn, k)
         sunk = sink_uses_of_new_locals(fn, k)
         if inline_new_locals(fn, k, pure) or sunk:
             info["inlined_locals"].append(q)
